@@ -489,6 +489,13 @@ class Facts:
         b = bs[0]
         if b.nblocks > 12 or b.kind not in ('fn', 'assoc_fn'):
             return None
+        # a getter has no side effects: no store through a projection, no call other than clone/deref-like ones
+        for bb, si, st in b.statements():
+            if st['s'] == 'assign' and st['lhs'].get('p'):
+                return None
+        for bb, t in b.calls():
+            if not is_transparent_call(t):
+                return None
         og = Origins(b)
         rets = b.return_blocks()
         if len(rets) != 1:
@@ -771,10 +778,16 @@ class Origins:
         key = (local, bb, si)
         if key in self._memo:
             v = self._memo[key]
-            return v if v is not None else ('local', local)
+            if v is None:
+                # loop-carried dependency: placeholder; results built on it are not memoised
+                self._cycle_hits = getattr(self, '_cycle_hits', 0) + 1
+                return ('local', local)
+            return v
         if depth > self.max_depth:
             return ('unknown', 'depth')
         self._memo[key] = None  # cycle guard
+        hits0 = getattr(self, '_cycle_hits', 0)
+        self._work = getattr(self, '_work', 0) + 1
         defs = self.reaching_defs(local, bb, si)
         terms = []
         for d in defs:
@@ -807,7 +820,10 @@ class Origins:
             r = uniq[0]
         else:
             r = ('phi', tuple(uniq))
-        self._memo[key] = r
+        if getattr(self, '_cycle_hits', 0) != hits0 and depth > 0 and self._work < 20000:
+            del self._memo[key]     # computed on top of a placeholder: valid only in this context
+        else:
+            self._memo[key] = r
         return r
 
     def _call(self, t, bb, depth):
